@@ -2,9 +2,12 @@ package c19
 
 import (
 	"fmt"
+	"os"
 	"regexp"
 	"runtime"
 	"time"
+
+	"verif/harness/guard"
 )
 
 var rangeRe = regexp.MustCompile(`[A-Za-z0-9."] ?- ?[A-Za-z0-9."]+ ->`)
@@ -39,3 +42,51 @@ func waitGoroutines(base int) error {
 		}
 	}
 }
+
+// watch is guard.Watch (same protocol: in-flight input written to
+// $VERIF_REPLAY_OUT, VERIF-HANG line, exit status guard.ExitHang) with a
+// limit that is counted in timer ticks instead of being one long timer: the
+// machines these checks run on can be paused and resumed, which makes the
+// monotonic clock jump; a single 20 s timer then fires at once, whereas 200
+// ticks of 100 ms need 200 separate wake-ups.
+func watch(name string, input []byte, fn func()) {
+	done := make(chan struct{})
+	go func() {
+		tick := time.NewTicker(100 * time.Millisecond)
+		defer tick.Stop()
+		for n := 0; n < watchTicks; n++ {
+			select {
+			case <-done:
+				return
+			case <-tick.C:
+			}
+		}
+		select {
+		case <-done:
+			return
+		default:
+		}
+		if dir := os.Getenv("VERIF_REPLAY_OUT"); dir != "" {
+			os.MkdirAll(dir, 0o755)
+			os.WriteFile(dir+"/inflight-"+name+".bin", input, 0o644)
+		}
+		fmt.Fprintf(os.Stderr, "VERIF-HANG target=%s len=%d limit=%d ticks of 100ms\n", name, len(input), watchTicks)
+		buf := make([]byte, 1<<16)
+		os.Stderr.Write(buf[:runtime.Stack(buf, true)])
+		os.Exit(guard.ExitHang)
+	}()
+	defer close(done)
+	fn()
+}
+
+var watchTicks = func() int {
+	n := 200
+	if s := os.Getenv("VERIF_HANG_SCALE"); s != "" {
+		var k int
+		fmt.Sscan(s, &k)
+		if k > 1 {
+			n *= k
+		}
+	}
+	return n
+}()
